@@ -17,6 +17,13 @@
 #include <urcu/assert.h>
 #include <urcu/uatomic.h>
 #include <urcu-pointer.h>
+#ifdef URCU_VERIF
+#include <urcu/verif.h>
+#else
+#ifndef urcu_verif_point
+#define urcu_verif_point(id, ctx) do { } while (0)
+#endif
+#endif
 
 #ifdef __cplusplus
 extern "C" {
@@ -156,8 +163,11 @@ bool _cds_lfs_push(cds_lfs_stack_ptr_t u_s,
 		 * stores to node before publication.
 		 */
 		cmm_emit_legacy_smp_mb();
+		urcu_verif_point(URCU_VP_LFS_PUSH_BEFORE_CMPXCHG, s);
 		head = uatomic_cmpxchg_mo(&s->head, old_head, new_head,
 					CMM_SEQ_CST, CMM_SEQ_CST);
+		if (old_head != head)
+			urcu_verif_point(URCU_VP_LFS_PUSH_RETRY, s);
 		if (old_head == head)
 			break;
 	}
@@ -207,6 +217,7 @@ struct cds_lfs_node *___cds_lfs_pop(cds_lfs_stack_ptr_t u_s)
 		next = uatomic_load(&head->node.next);
 		next_head = caa_container_of(next,
 				struct cds_lfs_head, node);
+		urcu_verif_point(URCU_VP_LFS_POP_BEFORE_CMPXCHG, s);
 		if (uatomic_cmpxchg_mo(&s->head, head, next_head,
 					CMM_SEQ_CST, CMM_SEQ_CST) == head){
 			cmm_emit_legacy_smp_mb();
